@@ -87,9 +87,12 @@ pub fn rfc3339_instant(s: &str) -> Option<(i64, u32, i32)> {
         }
         _ => return None,
     };
-    if !(1..=12).contains(&mo) || !(1..=31).contains(&d) || h > 23 || mi > 59 || se > 59 {
+    if !(1..=12).contains(&mo) || !(1..=31).contains(&d) || h > 23 || mi > 59 || se > 60 {
         return None;
     }
+    // a leap second (:60) is the instant of :59 with the fraction counted from 10^9 ns on (there is
+    // no POSIX second of its own; this is also how chrono represents it)
+    let (se, nanos) = if se == 60 { (59, nanos + 1_000_000_000) } else { (se, nanos) };
     let local = days_from_civil(y, mo, d) * 86400 + h * 3600 + mi * 60 + se;
     Some((local - off as i64, nanos, off))
 }
@@ -100,7 +103,9 @@ pub fn rfc3339_text(secs: i64, nanos: u32, off: i32, digits: usize, zulu: &str) 
     let days = local.div_euclid(86400);
     let sod = local.rem_euclid(86400);
     let (y, m, d) = civil_from_days(days);
-    let mut s = format!("{:04}-{:02}-{:02}T{:02}:{:02}:{:02}", y, m, d, sod / 3600, (sod / 60) % 60, sod % 60);
+    // nanos >= 10^9: a leap second, spelled :60
+    let (leap, nanos) = if nanos >= 1_000_000_000 { (1, nanos - 1_000_000_000) } else { (0, nanos) };
+    let mut s = format!("{:04}-{:02}-{:02}T{:02}:{:02}:{:02}", y, m, d, sod / 3600, (sod / 60) % 60, sod % 60 + leap);
     if digits > 0 {
         let f = format!("{:09}", nanos);
         s.push('.');
